@@ -365,7 +365,7 @@ impl Prop for C20 {
     fn enumerate(&self, _tier: Tier, _seed: u64) -> Vec<Case> {
         let mut out = vec![];
         let inputs = ["ok", "warn", "err", "unreadable", "small"];
-        let dests = ["absent", "existing", "readonly-file", "readonly-dir", "missing-parent", "parent-is-file", "dev-full"];
+        let dests = ["absent", "existing", "existing-same-length", "readonly-file", "readonly-dir", "missing-parent", "parent-is-file", "dev-full"];
         for backend in ["rasn", "ts"] {
             for input in inputs {
                 for source in ["literal", "path", "iter", "mix"] {
@@ -374,7 +374,7 @@ impl Prop for C20 {
                     }
                     for mode in ["file", "dir", "deprecated", "file-noext", "dir-dotted"] {
                         for dest in dests {
-                            if (mode == "file-noext" || mode == "dir-dotted") && !matches!(dest, "absent" | "existing") {
+                            if (mode == "file-noext" || mode == "dir-dotted") && !matches!(dest, "absent" | "existing" | "existing-same-length") {
                                 continue;
                             }
                             if mode == "dir" && matches!(dest, "missing-parent" | "parent-is-file" | "dev-full") {
@@ -393,7 +393,7 @@ impl Prop for C20 {
                 for source in ["cli-m", "cli-d"] {
                     for mode in ["file", "dir", "stdout", "none", "cli-default", "file-noext", "dir-dotted"] {
                         for dest in dests {
-                            if (mode == "file-noext" || mode == "dir-dotted") && !matches!(dest, "absent" | "existing") {
+                            if (mode == "file-noext" || mode == "dir-dotted") && !matches!(dest, "absent" | "existing" | "existing-same-length") {
                                 continue;
                             }
                             if (mode == "stdout" || mode == "none") && dest != "absent" && !(mode == "stdout" && dest == "dev-full") {
@@ -513,6 +513,18 @@ impl Prop for C20 {
         }
         if matches!(c.dest.as_str(), "existing" | "readonly-file") {
             std::fs::write(&target_file, "OLD CONTENT\n").unwrap();
+        }
+        if c.dest == "existing-same-length" {
+            // other content of exactly the length of the bindings about to be delivered (a size-keyed "up to date" test must not pass)
+            let first: Vec<String> = match c.steps.first().map(|s| s.input.as_str()) {
+                Some("ok") => vec![OK_A.into(), OK_B.into()],
+                Some("warn") => vec![OK_A.into(), WARN.into()],
+                Some("small") => vec![SMALL.into()],
+                _ => vec![OK_A.into()],
+            };
+            let r = if c.backend == "ts" { compile_ts(&first) } else { compile_rasn(&first, &Cfg::default()) };
+            let len = r.ok_any().map_or(12, |(g, _)| g.len());
+            std::fs::write(&target_file, "#".repeat(len)).unwrap();
         }
         std::fs::write(outd.join("bystander.txt"), "bystander\n").unwrap();
         if c.dest == "readonly-file" {
